@@ -62,7 +62,7 @@ deriving DecidableEq, Repr
 
 /-- What `Invoke` hands back to its caller: `(result, nil)`, `(err, nil)` when `PushContext` refuses (the error is
 returned *as the result*, with a nil error), `(_, err)`, and the model-only outcome `diverge` (fuel exhausted;
-shown unreachable for fuel ≥ 1026). -/
+`Proofs/NativeFuel.lean`: from fuel + stack depth ≥ 1027 on, more fuel changes nothing). -/
 inductive CallRes where
   | ok (r : Bytes)
   | ctxErr
